@@ -29,6 +29,9 @@ class Rule:
         self.opt = opt or []      # list of (start, end) 0-based inclusive optional ranges
         self.opt_body = False     # write the optional brackets in the rule body (lhs/rhs part) instead of the context
         self.line = line
+        self.ifs = []             # IR of the conditions (feature tests) the rule is under: conjunction
+        self.if_open = None       # text to write before the rule: "if (c)", "elseif (c)", "else"
+        self.if_close = False     # write "endif;" after the rule
 
 
 class Prog:
@@ -74,8 +77,12 @@ class Prog:
             for pi, rules in enumerate(passes):
                 out.append("pass(%d)" % (pi + 1))
                 for r in rules:
+                    if r.if_open:
+                        out.append(r.if_open)
                     out.append(rule_text(r))
                     r.line = sum(x.count("\n") + 1 for x in out)  # 1-based line of this rule in the file
+                    if r.if_close:
+                        out.append("endif;")
                 out.append("endpass;")
             out.append("endtable;")
         return "\n".join(out) + "\n"
@@ -114,7 +121,7 @@ class Prog:
                         d["constraint"] = it.constraint[1] if it.constraint else None
                         items.append(d)
                     rl.append({"items": items, "caret": r.caret, "opt": [list(o) for o in r.opt], "line": r.line,
-                               "tree": r.tree})
+                               "tree": r.tree, "ifs": r.ifs})
                 passes.append({"index": pidx, "table": ttype, "rules": rl})
                 pidx += 1
         def conv(t):
@@ -1026,4 +1033,61 @@ def gen_expr_program(rng, single=False):
             setup.append(Rule([Item(cls=nm, mod=True, out=None, attrs=attrs)]))
         passes = [setup, [rule]]
     prog.tables.append(("sub", passes))
+    return prog
+
+
+FEATZ = ('table(feature)\n'
+         'fz0 { id = 1234; name.1033 = string("Z0"); default = 0; settings { a0 { value = 0; name.1033 = string("a"); } a1 { value = 1; name.1033 = string("b"); } a2 { value = 2; name.1033 = string("c"); } } }\n'
+         'fz1 { id = "zone"; name.1033 = string("Z1"); default = 1; settings { b0 { value = 0; name.1033 = string("n"); } b1 { value = 1; name.1033 = string("y"); } } }\n'
+         'endtable;')
+FEATZ_IDS = [1234, (ord("z") << 24) | (ord("o") << 16) | (ord("n") << 8) | ord("e")]
+FEATZ_VALUES = [[0, 1, 2], [0, 1]]
+
+
+def feat_cond(rng):
+    """-> (text, ir) of one feature test (possibly a conjunction / disjunction)."""
+    def atom():
+        f = rng.randrange(2)
+        v = rng.choice(FEATZ_VALUES[f])
+        op = rng.choice(["==", "==", "!="])
+        return "(fz%d %s %d)" % (f, op, v), {"k": "bin", "op": op, "a": {"k": "feat", "f": f}, "b": {"k": "lit", "v": v}}
+    r = rng.random()
+    if r < 0.7:
+        return atom()
+    (ta, ia), (tb, ib) = atom(), atom()
+    op = "&&" if r < 0.88 else "||"
+    return "(%s %s %s)" % (ta, op, tb), {"k": "bin", "op": op, "a": ia, "b": ib}
+
+
+def add_feature_tests(rng, prog):
+    """Put some consecutive rules of every pass under if / elseif / else branches on the features fz0, fz1."""
+    prog.feature_text = FEATZ
+    for ttype, passes in prog.tables:
+        for rules in passes:
+            i = 0
+            while i < len(rules):
+                if rng.random() < 0.5:
+                    i += 1
+                    continue
+                nbr = rng.choice([1, 1, 2, 2, 3])
+                conds = []
+                prev_not = []
+                k = 0
+                while k < nbr and i < len(rules):
+                    last = (k == nbr - 1) or (i == len(rules) - 1)
+                    is_else = k > 0 and last and rng.random() < 0.5
+                    r = rules[i]
+                    if is_else:
+                        r.if_open = "else"
+                        r.ifs = list(prev_not)
+                    else:
+                        t, ir_ = feat_cond(rng)
+                        r.if_open = ("if %s" if k == 0 else "elseif %s") % t
+                        r.ifs = list(prev_not) + [ir_]
+                        prev_not.append({"k": "un", "op": "!", "e": ir_})
+                    r.if_close = last
+                    i += 1
+                    k += 1
+                    if last:
+                        break
     return prog
